@@ -37,7 +37,8 @@ APPLY = {
     "neg": lambda rec: (dict(rec[0]), -rec[1], rec[2]),
     "plus1": lambda rec: (dict(rec[0]), rec[1] + 1, rec[2]),
     "ident": lambda rec: (dict(rec[0]), rec[1], rec[2]),
-    "square": lambda rec: (dict(rec[0]), rec[1] * rec[1], rec[2]),
+    # (repeated squaring of the huge exact values of `big_vals` runs would double the digit count every time: capped)
+    "square": lambda rec: (dict(rec[0]), rec[1] * rec[1] if abs(rec[1]) < (1 << 200) else rec[1], rec[2]),
     "const0": lambda rec: (dict(rec[0]), 0, rec[2]),
 }
 CONVERT = {
@@ -177,6 +178,12 @@ class World(BaseWorld):
         kind = choose_weighted(rng, table)
         a = rng.randrange(len(self.live))
         n = len(self.live[a][1])
+        if n > 4 * MAX_LEN and kind in ("extend", "iadd", "add", "mul", "append", "add_state", "insert", "setslice"):
+            # repeated self-extension doubles a collection every time (2^20 elements after 20 of 60 ops): keep the world small
+            self.probe("growth_op_replaced_on_large_collection")
+            if rng.random() < 0.5:
+                return {"op": "clear", "a": a}
+            return {"op": "delslice", "a": a, "s": [MAX_LEN // 2, None, 1]}
         op = {"op": kind, "a": a}
         if kind == "new":
             op["src"] = self.gen_src_new(rng)
